@@ -14,6 +14,7 @@ CONSTANTS
   ShapeMode = 0
   ArmorHdrs = {0, 1, 2}
   SigBools = {TRUE, FALSE}
+  BigSel = {}
   Emit = FALSE
 SPECIFICATION BSpec
 INVARIANT RoundTrip
